@@ -202,6 +202,7 @@ func runC05() {
 	if run.Thorough() {
 		n = 40000
 	}
+	n = scaled(n)
 	for i := 0; i < n; i++ {
 		c05Scenario(rnd.Fork())
 	}
